@@ -122,6 +122,8 @@ func (exec *BatchExecutor) Route(op kmip.Operation, hdl OperationHandler) {
 //   - This function does not return errors directly. If an error occurs during middleware or request handling,
 //     the error is converted into a KMIP error response message.
 func (exec *BatchExecutor) HandleRequest(ctx context.Context, req *kmip.RequestMessage) *kmip.ResponseMessage {
+	// This batch context is the one the middlewares see (GetRequestHeader, GetProtocolVersion).
+	// The core handler creates its own for every message it executes, see handleRequest.
 	ctx = newBatchContext(ctx, req.Header)
 	resp, err := exec.nextFrom(0)(ctx, req)
 
@@ -156,6 +158,12 @@ func (exec *BatchExecutor) nextFrom(i int) Next {
 //   - error: If the protocol version is unsupported, batch count mismatches, or a batch item fails and
 //     BatchErrorContinuationOption is set to Stop, an error is returned.
 func (exec *BatchExecutor) handleRequest(ctx context.Context, req *kmip.RequestMessage) (*kmip.ResponseMessage, error) {
+	// Every execution of a request message gets a batch context of its own, made from the message it is
+	// given: a middleware may call next several times (retry) or with another message, and neither the
+	// ID placeholder left by a previous execution nor the header of the original message must be
+	// visible to the operation handlers.
+	ctx = newBatchContext(ctx, req.Header)
+
 	//TODO: Check request timestamp
 	//TODO: Check other header params
 
